@@ -485,8 +485,14 @@ fn annotate_restores(log: &mut [Value]) {
 }
 
 pub fn run_many<W: Write>(out: &mut W, count: u64, seed: u64, directed: bool, stale: bool) {
-    let rt = tokio::runtime::Builder::new_current_thread().enable_all().start_paused(true).build().expect("rt");
+    // a fresh runtime every few runs: the background tasks of finished runs (proxies, migrations, replicators) die with their
+    // runtime; with one runtime for hundreds of runs a thorough part grew to several GB and the OOM killer took it
+    let mk = || tokio::runtime::Builder::new_current_thread().enable_all().start_paused(true).build().expect("rt");
+    let mut rt = mk();
     for i in 0..count {
+        if i > 0 && i % 8 == 0 {
+            rt = mk();
+        }
         let s = seed.wrapping_mul(1_000_003).wrapping_add(i);
         let cfg = MigCfg {
             seed: s,
